@@ -13,12 +13,25 @@ Record case := {
   k_tol : Q                          (* absolute tolerance of the call site (float64 noise, or printed digits) *)
 }.
 
-Definition close (tol a b : Q) : bool := Qle_bool (Qabs (a - b)) (tol + (1 # 1000000000000) * Qabs a).
+(* float64 noise of the rotation: three roundings, each half an ulp of a term no larger than the operands - so the bound is
+   relative to the size of the operands (|x| + |y| + |shift|), not to the size of the result (x' = c x - s y can cancel) *)
+Definition close (tol scale a b : Q) : bool :=
+  Qle_bool (Qabs (a - b)) (tol + (1 # 1000000000000) * Qabs a + (4 # 10000000000000000) * scale).
 
-Definition p_close (tol : Q) (a b : Q * Q * Q) : bool :=
-  let '(ax, ay, az) := a in let '(bx, by_, bz) := b in close tol ax bx && close tol ay by_ && close tol az bz.
+Definition scale_of (c : tcfg) (p : Q * Q * Q) : Q :=
+  let '(x, y, z) := p in Qabs x + Qabs y + Qabs z + Qabs (t_sx c) + Qabs (t_sy c).
+
+Definition p_close (tol scale : Q) (a b : Q * Q * Q) : bool :=
+  let '(ax, ay, az) := a in let '(bx, by_, bz) := b in close tol scale ax bx && close tol scale ay by_ && close tol scale az bz.
+
+Fixpoint all_close (tol : Q) (f : Q * Q * Q -> Q * Q * Q) (c : tcfg) (pts outs : list (Q * Q * Q)) : bool :=
+  match pts, outs with
+  | [], [] => true
+  | p :: pr, o :: or => p_close tol (scale_of c p) (f p) o && all_close tol f c pr or
+  | _, _ => false
+  end.
 
 Definition check (k : case) : N :=
-  code_of [ list_eqb (p_close (k_tol k)) (map ((if k_scalar k then tr_scalar else tr32) (k_tc k)) (k_pts k)) (k_out k) ].
+  code_of [ all_close (k_tol k) ((if k_scalar k then tr_scalar else tr32) (k_tc k)) (k_tc k) (k_pts k) (k_out k) ].
 
 Definition failing (cs : list case) : list (N * N) := failing_from check 0 cs.
